@@ -24,7 +24,7 @@ func init() {
 			if tier == "quick" {
 				return 6400
 			}
-			return 64000
+			return 128000
 		},
 		Run:      runC14,
 		Required: []string{"queries.uncapped", "queries.capped_hit", "queries.capped_not_hit", "nets.dag", "nets.dag_with_links_labelled_recurrent", "nets.cyclic", "nets.self_loop", "sequences.after_cap_hit"},
